@@ -1496,6 +1496,23 @@ def oracle_str_eq(site, vals):
     return ("const", "true" if eq else "false")
 
 
+def oracle_int_eq(site, vals):
+    """Scenario-independent oracle: comparison of two known integer constants through the PartialEq / PartialOrd traits."""
+    if len(vals) != 2:
+        return None
+    vs = []
+    for v in vals:
+        while v is not None and v[0] == "refval":
+            v = v[1]
+        vs.append(_as_int(v))
+    if vs[0] is None or vs[1] is None:
+        return None
+    op = norm(site.name).split("::")[-1]
+    res = {"eq": vs[0] == vs[1], "ne": vs[0] != vs[1], "lt": vs[0] < vs[1], "le": vs[0] <= vs[1], "gt": vs[0] > vs[1], "ge": vs[0] >= vs[1]}.get(op)
+    return None if res is None else ("const", "true" if res else "false")
+
+
+INT_CMP = (r"Partial(Eq|Ord).*::(eq|ne|lt|le|gt|ge)$", oracle_int_eq)
 STR_EQ = (r"PartialEq.*::(eq|ne)$|str::traits::.*::(eq|ne)$", oracle_str_eq)
 
 
@@ -1589,13 +1606,13 @@ class AbsPaths:
         val = None
         if k == "use":
             val = self._eval_operand(st, r["o"])
-        elif k == "agg" and ("adt" in r or "tuple" in r):
+        elif k == "agg" and ("adt" in r or "tuple" in r or "closure" in r):
             fields = []
             for i, o in enumerate(r["ops"]):
                 fv = self._eval_operand(st, o)
                 if fv is not None:
                     fields.append((i, fv))
-            val = ("variant", r["v"] if "adt" in r else "()", tuple(fields))
+            val = ("variant", r["v"] if "adt" in r else ("{closure}" if "closure" in r else "()"), tuple(fields))
         elif k == "ref":
             q = r["p"]
             if not q["p"]:
